@@ -784,7 +784,8 @@ def krylov(model, sfield, efield, var):
         if var.exit_message == '':
             var.exit_message = f"Error in {var.sslsolver} ({i})"
         pre = "\n* ERROR   :: "
-    elif i > 0:
+    elif i > 0 or not var.l2 < var.tol*var.l2_refe:
+        # (SciPy returns 0 as well if it did not iterate at all, maxiter=0.)
         var.exit_message = "MAX. ITERATION REACHED, NOT CONVERGED"
     else:
         var.exit_message = "CONVERGED"
